@@ -915,13 +915,22 @@ def check_case(case):
         if path == "iba":
             from smrt.emmodel.iba import derived_IBA
             from smrt.inputs import sensor_list
-            em = derived_IBA(fn)(sensor_list.passive(freq, 40.), lay)
+            holder = {}
+
+            def thunk():
+                holder["em"] = derived_IBA(fn)(sensor_list.passive(freq, 40.), lay)
+                return holder["em"].effective_permittivity()
+            through = outcome(thunk)
+            if "em" not in holder:            # the emmodel could not be built (it evaluates the formula, and more, while it is built): refused
+                return None
+            em = holder["em"]
         else:
             from smrt.emmodel.common import AdjustableEffectivePermittivityMixins
             em = type("Em", (AdjustableEffectivePermittivityMixins,), {"effective_permittivity_model": staticmethod(fn)})()
             em.layer, em.frequency = lay, freq
             em.e0, em.eps = extra.get("e0", 1.0), extra.get("eps", 3.0 + 0.01j)
-        through = outcome(em.effective_permittivity)
+        if path != "iba":
+            through = outcome(em.effective_permittivity)
         pos = []
         extra = {k: v for k, v in dict(e0=em.e0, eps=em.eps, frequency=em.frequency).items() if k in d["params"]}
         lay = em.layer
@@ -1008,6 +1017,39 @@ def check_update_sequence(seed):
         if not all(abs(a - b) <= 1e-12 * abs(b) for a, b in zip(got, want)):
             return ("layer:stale-after-update", f"snow layer (density {dens}) evaluated at {f:g} Hz, then {what}, then evaluated again: {got} but a "
                     f"layer built with the new parameters gives {want}", str(got), str(want))
+    return None
+
+
+def check_ctor_reaches(it, shape, ratio, f=10e9, T=262.0, S=0.004):
+    """what the user hands to make_ice_layer is what the formulas see through the layer: the brine inclusion shape (and mixing ratio) of
+    multi-year ice reaches saline_ice_permittivity_pvs_mixing, that of first-year ice is the layer's inclusion shape"""
+    from smrt.inputs.make_medium import make_ice_layer
+    from smrt.permittivity.saline_ice import saline_ice_permittivity_pvs_mixing as pvs
+    shp = resolve(shape)
+    kw = dict(brine_inclusion_shape=shp)
+    if isinstance(shp, tuple):
+        kw["brine_mixing_ratio"] = ratio
+    if it == "multiyear":
+        kw["porosity"] = 0.08
+    lay = make_ice_layer(it, 1.0, temperature=T, salinity=S, microstructure_model="exponential", corr_length=2e-4, **kw)
+    for k in ("brine_inclusion_shape", "brine_mixing_ratio"):
+        if k in kw and (not hasattr(lay, k) or getattr(lay, k) != kw[k]):
+            return ("make_medium.make_ice_layer:argument-not-stored", f"make_ice_layer('{it}', {k}={kw[k]!r}): the layer carries "
+                    f"{getattr(lay, k, '<nothing>')!r}", repr(getattr(lay, k, None)), repr(kw[k]))
+    if it == "firstyear" and lay.inclusion_shape != shp:
+        return ("make_medium.make_ice_layer:argument-not-stored", f"make_ice_layer('firstyear', brine_inclusion_shape={shp!r}): the inclusions of "
+                f"first-year ice are the brine pockets but the layer's inclusion_shape is {lay.inclusion_shape!r}", repr(lay.inclusion_shape), repr(shp))
+    if it == "multiyear":
+        through = outcome(lambda: lay.permittivity(0, f))
+        dkw = dict(brine_volume_fraction=lay.brine_volume_fraction, brine_inclusion_shape=shp)
+        if "brine_mixing_ratio" in kw:
+            dkw["brine_mixing_ratio"] = ratio
+        direct = outcome(lambda: pvs(f, T, **dkw))
+        if through[0] != direct[0] or (through[0] == "ok" and not same_value(through[1], direct[1])):
+            return ("saline_ice.saline_ice_permittivity_pvs_mixing:constructor-argument-not-injected",
+                    f"make_ice_layer('multiyear', brine_inclusion_shape={shp!r}"
+                    + (f", brine_mixing_ratio={ratio}" if "brine_mixing_ratio" in kw else "") + f"): the background permittivity through the layer at "
+                    f"{f:g} Hz is not saline_ice_permittivity_pvs_mixing with that shape", show(through), show(direct))
     return None
 
 
@@ -1107,6 +1149,29 @@ def oracle(ctx, hints, effort):
             run(case)
     for case in witness_cases():
         run(case)
+    for it in ("multiyear", "firstyear"):
+        for shape in SHAPES:
+            evals += 1
+            ratio = r3(rng, 0.1, 0.9)
+            r = check_ctor_reaches(it, shape, ratio)
+            if r is not None:
+                findings.append(Finding(r[0], r[1], {"kind": "ctor-reaches", "ice_type": it, "shape": shape, "ratio": ratio}, r[2], r[3]))
+    # an emmodel built on a formula whose required property the layer lacks: refused, whatever the theory's own default formula is
+    for name, d in t["decls"].items():
+        if d["fn"] is None or not d["required"]:
+            continue
+        for kind, base in base_layers(rng, ["make_snow_layer", "make_ice_layer:fresh", "make_ice_layer:firstyear", "make_water_layer"]).items():
+            try:
+                lay0 = build_layer(json.loads(json.dumps(base)))
+            except Exception:  # noqa
+                continue
+            if all(hasattr(lay0, r_) for r_ in d["required"]) or not hasattr(lay0, "microstructure"):
+                continue
+            b = json.loads(json.dumps(base))
+            if kind != "make_water_layer":
+                b["args"].update(microstructure_model="exponential", corr_length=2e-4)
+                b["args"].pop("radius", None); b["args"].pop("stickiness", None)
+            run(dict(fn=name, path="iba", layer=b, frequency=19e9))
     for _ in range(3 if effort == "routine" else 20):
         evals += 1
         sd = int(rng.integers(0, 2**31))
@@ -1174,6 +1239,9 @@ def replay(inp, rp=None):
         d = table()["decls"][inp["fn"]]
         rs = check_pinned_required(inp["fn"], d, inp["prop"], np.random.default_rng(0))
         return Finding(f"{d['module']}.{d['name']}:{rs[0][0]}", rs[0][1], inp, rs[0][2], rs[0][3]) if rs else None
+    if inp.get("kind") == "ctor-reaches":
+        r = check_ctor_reaches(inp["ice_type"], inp["shape"], inp["ratio"])
+        return None if r is None else Finding(r[0], r[1], inp, r[2], r[3])
     if inp.get("kind") == "update-sequence":
         r = check_update_sequence(inp["seed"])
         return None if r is None else Finding(r[0], r[1], inp, r[2], r[3])
